@@ -484,7 +484,7 @@ func crossGenFiles() map[string]string {
 		"bb-vgen-hist-stackx": mk("bb-vgen-hist-stackx", "  /etc/host2 r,\n\n  #aa:stack X zz-vgen-hist-target zz-vgen-xtarget\n"),
 		"zz-vgen-hist-target": mk("zz-vgen-hist-target", "  capability sys_admin,\n\n  /usr/bin/tool rPx,\n  /usr/bin/helper rix,\n  /boot/{linux,initrd} r,\n  /etc/target r,\n\n  #aa:dbus own bus=system name=org.vgen.Target\n"),
 		// name relations: a stacked / exec'd profile whose name is a proper prefix of one named before it
-		"zz-vgen-hist-target-ext": mk("zz-vgen-hist-target-ext", "  capability sys_ptrace,\n\n  /etc/target-ext r,\n  /usr/bin/ext-tool rPx,\n  owner @{tmp}/$vgen@{rand6} rw,\n  owner /var/tmp/${vgen}-$1/100%/** r, # costs $5, 100%\n\n  #aa:exec zz-vgen-hist-uselib\n"),
+		"zz-vgen-hist-target-ext": mk("zz-vgen-hist-target-ext", "  capability sys_ptrace,\n\n  /etc/target-ext r,\n  /usr/bin/ext-tool rPx,\n  owner @{tmp}/$vgen@{rand6} rw,\n  owner /var/tmp/$vgen-$1/100%/** r, # costs $5, 100%\n\n  #aa:exec zz-vgen-hist-uselib\n"),
 		"dd-vgen-hist-stackpre":   mk("dd-vgen-hist-stackpre", "  /etc/host3 r,\n\n  #aa:stack zz-vgen-hist-target-ext zz-vgen-hist-target\n"),
 		"ee-vgen-hist-stackpre2":  mk("ee-vgen-hist-stackpre2", "  /etc/host4 r,\n\n  #aa:stack X zz-vgen-hist-target-ext\n\n  /etc/host4b r,\n\n  #aa:stack zz-vgen-hist-target\n"),
 		"zz-vgen-hist-uselib-ext": pre("zz-vgen-hist-uselib-ext", "@{exec_path} = @{lib}/zz-vgen-hist-uselib-ext\n", "@{exec_path} ", "  /etc/hist r,\n"),
